@@ -14,7 +14,9 @@ def step (st : St) (op impl : List String) : St × List String :=
   match op with
   | "new" :: mode :: _seed :: _idx :: rest =>
     let kv := kvs rest
-    ({ active := true, mode := mode, hdr := kv, streams := parseStreams (get kv "streams") }, [])
+    -- `<mode>-native`: the same program run outside the bubble for the race detector
+    let mode := (mode.splitOn "-native").head!
+    ({ active := true, mode := mode, hdr := kv, streams := parseStreams (get kv "streams"), readers := max 1 (getN kv "readers") }, [])
   | ["connect", side] =>
     match impl with
     | r :: _ =>
@@ -44,21 +46,26 @@ def step (st : St) (op impl : List String) : St × List String :=
     let v := match st.aborter with
       | some x =>
         -- a stream the aborting side had already closed ends with EOF, as usual
-        if nat side == 1 - x && impl.head? != some "short" && impl.head? != some "deadline" && !st.abortLost && !st.shutdownOk.contains (nat side) && !st.closes.contains (x, nat si) && !((" ".intercalate impl).splitOn "verif-abort-reason").length ≥ 2 then
+        -- (a Close() racing with the Abort() on the same side may win: then no ABORT is sent)
+        if nat side == 1 - x && impl.head? != some "short" && impl.head? != some "deadline" && !st.abortLost && !st.closeCalled.contains x && !st.shutdownOk.contains (nat side) && !st.closes.contains (x, nat si) && !((" ".intercalate impl).splitOn "verif-abort-reason").length ≥ 2 then
           [s!"[C09] side {side} stream {si}: read failed with `{" ".intercalate impl}` after the peer's Abort; the error does not carry the abort cause"]
         else []
       | none => []
     (if impl == ["EOF"] then { st with eofs := (nat side, nat si) :: st.eofs } else st, v)
   | ["inject", kind, _side, _at] => ({ st with injected := kind }, [])
   | ["abortcall", side] => ({ st with aborter := some (nat side) }, [])
+  | ["readerspin", side, si] =>
+    (st, [s!"[C18,C09] side {side} stream {si}: more than 5000 consecutive read-deadline errors on a stream that will never get data or an error ({" ".intercalate impl})"])
+  | ["closecall", side] => ({ st with closeCalled := nat side :: st.closeCalled }, [])
+  | ["stormopen", dir, si] => (st, [s!"[C20] OpenStream({si}) on side {dir} returned a different object while the stream was still open"])
   | ["unblocked"] =>
     match impl with
-    | r :: t :: _ => (st, if r != "true" then [s!"[C09] API callers are still blocked {t} ms after {st.injected} was injected"] else [])
+    | r :: t :: _ => (st, if r != "true" then [s!"[{if st.mode == "storm" then "C20," else ""}C09] API callers are still blocked {t} ms after {st.injected} was injected"] else [])
     | _ => (st, [])
   | ["reclose", side] =>
     (st, if impl.any (fun e => e.startsWith "PANIC") then [s!"[C09] repeated Close on side {side}: {" ".intercalate impl}"] else [])
   | ["close", dir, si] =>
-    ({ st with closes := (nat dir, nat si) :: st.closes }, if impl != ["nil"] && st.mode == "reset" then [s!"[C14] Close of stream {si} on side {dir} returned {" ".intercalate impl}"] else [])
+    ({ st with closes := (nat dir, nat si) :: st.closes, closeAt := st.closeAt ++ [(nat dir, nat si, st.writes.size)] }, if impl != ["nil"] && st.mode == "reset" then [s!"[C14] Close of stream {si} on side {dir} returned {" ".intercalate impl}"] else [])
   | ["resetdone", c] =>
     match impl with
     | r :: t :: _ => (st, if r != "true" then [s!"[C14] cycle {c}: {t} ms after start the closed streams are still registered: the reset handshake never completed in both directions"] else [])
@@ -90,6 +97,7 @@ def step (st : St) (op impl : List String) : St × List String :=
     let f := nat from_
     -- the ABORT must beat the transport close (100 ms later) for the peer to see the cause: only required when it was delivered at once
     let st := if fate != "pass" && impl.contains "ABORT" then { st with abortLost := true } else st
+    let st := if impl.contains "SHUTDOWNCOMPLETE" then { st with sdDone := f :: st.sdDone } else st
     let st := noteTx { st with pkts := st.pkts.insert (f, nat idx) impl } f impl
     let v := (checkTx st f (nat len) impl).toList
     -- a SACK from this side acknowledges whatever it was waiting to acknowledge
@@ -104,13 +112,21 @@ def step (st : St) (op impl : List String) : St × List String :=
     let to_ := nat to
     match st.pkts[((1 - to_), nat idx)]? with
     | some summary =>
+      let st := if summary.contains "SHUTDOWNCOMPLETE" then { st with sdDone := to_ :: st.sdDone } else st
       if summary.any isDataTok && !st.ended && (st.awaitingAck[to_]!).isNone then
         ({ st with awaitingAck := st.awaitingAck.set! to_ (some (nat t)) }, [])
       else (st, [])
     | none => (st, [])
   | ["shutdown", side] =>
     match impl with
-    | r :: _ => if r == "nil" then ({ st with shutdownOk := nat side :: st.shutdownOk }, []) else (st, [])
+    | r :: _ =>
+      if r == "nil" then
+        -- the statement of C09 wants an error from a Shutdown that a teardown cut short; the code returns nil as soon as
+        -- closeWriteLoopCh is closed, whatever closed it (known finding K09-shutdown-nil)
+        let cut := (st.mode == "teardown" || st.mode == "storm") && !st.sdDone.contains (nat side)
+        ({ st with shutdownOk := nat side :: st.shutdownOk },
+          if cut then [s!"[C09] Shutdown on side {side} returned nil although the shutdown sequence never completed (no SHUTDOWN-COMPLETE sent or received; the association was torn down: {st.injected})"] else [])
+      else (st, [])
     | _ => (st, [])
   | ["wlate", dir, si, _len, hash] =>
     let v := match impl with
